@@ -746,6 +746,11 @@ func (l *Local) factoryAllocWorker(ctx context.Context) {
 			eniID := l.eni.ID
 			v4Count := min(l.batchSize, l.allocatingV4.Len())
 			v6Count := min(l.batchSize, l.allocatingV6.Len())
+			if l.cap > 0 {
+				// ips waiting to be unassigned still occupy their slot on the eni
+				v4Count = max(min(v4Count, l.cap-len(l.ipv4)), 0)
+				v6Count = max(min(v6Count, l.cap-len(l.ipv6)), 0)
+			}
 
 			if v4Count > 0 {
 				l.cond.L.Unlock()
